@@ -87,16 +87,21 @@ class ClassInfo:
     ext_bases: list = field(default_factory=list)  # dotted names of external bases
     methods: dict = field(default_factory=dict)    # name -> FuncInfo (own methods only)
     class_assigns: list = field(default_factory=list)
+    foreign: bool = False     # a class that is NOT part of the package (a caller's look-alike)
 
     @property
     def where(self) -> str:
         return f"{self.module.rel}:{self.node.lineno}"
 
+    @property
+    def key(self) -> str:
+        return ("<foreign>" + self.name) if self.foreign else self.name
+
     def __hash__(self):
-        return hash(self.name)
+        return hash(self.key)
 
     def __eq__(self, other):
-        return isinstance(other, ClassInfo) and other.name == self.name
+        return isinstance(other, ClassInfo) and other.key == self.key
 
     def __repr__(self):
         return f"<class {self.name}>"
@@ -287,9 +292,9 @@ class Model:
 
     # ------------------------------------------------------------------ classes
     def mro(self, ci: ClassInfo) -> list[ClassInfo]:
-        c = self._mro_cache.get(ci.name)
+        c = self._mro_cache.get(ci.key)
         if c is None:
-            c = self._mro_cache[ci.name] = self._mro(ci)
+            c = self._mro_cache[ci.key] = self._mro(ci)
         return c
 
     def _mro(self, ci: ClassInfo) -> list[ClassInfo]:
@@ -305,7 +310,7 @@ class Model:
         return out
 
     def resolve_method(self, ci: ClassInfo, name: str) -> Optional[FuncInfo]:
-        key = (ci.name, name)
+        key = (ci.key, name)
         try:
             return self._rm_cache[key]
         except KeyError:
@@ -319,10 +324,10 @@ class Model:
         return r
 
     def is_subclass(self, ci: ClassInfo, base_name: str) -> bool:
-        key = (ci.name, base_name)
+        key = (ci.key, base_name)
         r = self._rm_cache.get(("<sub>", key))
         if r is None:
-            r = any(c.name == base_name for c in self.mro(ci))
+            r = any(c.name == base_name and not c.foreign for c in self.mro(ci))
             self._rm_cache[("<sub>", key)] = r
         return r
 
